@@ -766,19 +766,46 @@ func genRecurse(w *world, sc *scriptT, nsteps int) {
 			}
 		case r < 82:
 			add("list")
-		case r < 88 && len(roots) > 1: // remove one of the roots
+		case r < 88 && len(roots) > 1: // remove one of the roots, then activity everywhere: only the other trees report
 			k := w.rng.Intn(len(roots))
 			add("proc", "A")
 			add("remove", hx("$R/"+roots[k]+"/..."))
-			var nd []string
+			add("proc", "A")
+			roots = append(roots[:k], roots[k+1:]...)
 			for _, d := range dirs {
-				if !under(d, roots[k]) {
-					nd = append(nd, d)
+				f := fmt.Sprintf("%s/after%d", d, nfile)
+				nfile++
+				add("fs", "create", f)
+			}
+			add("proc", "A")
+			add("list")
+		case r < 92: // a long series of renames of one inner directory (more than the rename-cookie ring holds)
+			var inner []string
+			for _, d := range dirs {
+				if strings.Count(d, "/") == 1 {
+					inner = append(inner, d)
 				}
 			}
-			// operations below the removed root must now be silent: keep the directories for fs activity
-			roots = append(roots[:k], roots[k+1:]...)
-			_ = nd
+			if len(inner) == 0 {
+				continue
+			}
+			a := inner[w.rng.Intn(len(inner))]
+			root := strings.SplitN(a, "/", 2)[0]
+			for j := 0; j < 11+w.rng.Intn(4); j++ {
+				b := fmt.Sprintf("%s/ren%d_%d", root, len(sc.steps), j)
+				add("fs", "rename", a, b)
+				add("proc", "A")
+				for i, d := range dirs {
+					if under(d, a) {
+						dirs[i] = b + d[len(a):]
+					}
+				}
+				a = b
+				f := fmt.Sprintf("%s/g%d", a, nfile)
+				nfile++
+				add("fs", "create", f)
+				add("proc", "A")
+			}
 		default:
 			add(w.procStep()...)
 		}
